@@ -19,13 +19,17 @@ RULE = ("corpus of hand-drawn scenes (bullseyes, shared holes, multi-parent clus
         "layout (C, Fortran, strided view, negative strides, read-only, transposed view) incl. labels at the dtype maximum "
         "(<= 16 bit) and labels > 65535 (>= 32 bit), images without background / without foreground / 1x1 / 1xN / Nx1 in "
         "every dtype; mask (dense, half, all, none, foreground-only, box) and size_fn (area thresholds per foreground/"
-        "background) separately and together; each call repeated in the same process; checkerboards (quick 120x120 > 7000 regions; thorough 200x200 = 20000 regions through the model and 380x380 > 64K regions against binary_fill_holes only); "
+        "background) separately and together; each call repeated in the same process; strips (257..4100 long, 3..12 "
+        "wide, tall and wide) of alternating full-width bands with a one-pixel slot or inlay whose only contact with the "
+        "next band is a single pixel pair, a band boundary on EVERY row/column (so any chunk seam is hit), through the "
+        "model and the verified checker; checkerboards (quick 120x120 > 7000 regions; thorough 200x200 = 20000 regions through the model and 380x380 > 64K regions against binary_fill_holes only); "
         "non-trivial = at least one region is repainted; distinct by hash of the case")
 TRUSTED = [
     "scipy.ndimage.label: the model takes blabels/count as an argument; C08_fill_labeled_holes_correct_img assumes "
     "Spec.valid_labelling (background pixels and only they are numbered 1..count; 4-adjacent background pixels share a "
-    "number); the verified boolean test labelling_ok_b of exactly that hypothesis is evaluated on scipy's output and on "
-    "the model's own flood fill label4 for every case, and label4's numbering is compared with scipy's",
+    "number); the verified boolean test labelling_ok_b of exactly that hypothesis is evaluated on scipy's output for "
+    "every case; for the model's own flood fill label4 the hypothesis is PROVED (C08_label4_valid) and label4's "
+    "numbering is compared with scipy's",
     "NumPy np.unique / np.lexsort / np.bincount / fancy indexing as transcribed (merge sort + adjacent de-duplication, "
     "bincount as a fold, Indexes.fwd_idx as an exclusive prefix sum): the transcription is compared array by array; "
     "what the transcribed arrays mean (symmetric duplicate-free adjacency, ragged index = neighbour lists) is proved",
@@ -117,6 +121,57 @@ def _rand_image(rng, big):
     return np.asarray(lab, int)
 
 
+STRIP_LENGTHS = [257, 513, 530, 1025, 1040, 2049, 4100]
+
+
+def _strip_image(L, w, phase, kind, slotcol, band=2, inlay_at=None):
+    """L x w image made of full-width bands of alternating labels 1/2 (all touch the border, so all unchanged); every band
+    has a one-pixel slot (background) cut into its top row ('top') or bottom row ('bottom') whose ONLY contact with the
+    neighbouring band is the single vertical pixel pair across the band boundary: with both contacts the slot touches two
+    different unchanged objects (stays), without that pair it would be repainted.  Band boundaries fall on every row
+    congruent to [phase] modulo [band], so with band = 2 and phase in {0, 1} every row of the image is such a seam."""
+    lab = np.zeros((L, w), int)
+    starts = list(range(phase, L, band))
+    if phase:
+        starts = [0] + starts
+    for n, a in enumerate(starts):
+        b = starts[n + 1] if n + 1 < len(starts) else L
+        lab[a:b, :] = 1 + (n % 2)
+        r = a if kind == "top" else b - 1
+        if b - a >= 2 or kind == "top":
+            lab[r, slotcol] = 0
+    if inlay_at is not None:
+        r, v = inlay_at
+        if 0 < r < L - 1:
+            lab[r, slotcol] = v
+    return lab
+
+
+def _strip_cases(ctx, lengths, widths, phases, kinds, orients):
+    rng = ctx.rng
+    cases = []
+    for L in lengths:
+        for phase in phases:
+            for kind in kinds:
+                for orient in orients:
+                    w = int(rng.choice(widths))
+                    band = 2
+                    slotcol = int(rng.randint(1, w - 1))
+                    inlay = None
+                    if rng.rand() < 0.5:
+                        # an inlaid object (label 3) instead of a background slot at a power-of-two row (+-1)
+                        base = int(rng.choice([64, 128, 256, 512, 1024, 2048]))
+                        r = base * int(rng.randint(1, max(2, L // base + 1))) + int(rng.choice([-1, 0, 1]))
+                        inlay = (r, 3)
+                    lab = _strip_image(L, w, phase, kind, slotcol, band, inlay)
+                    if orient == "wide":
+                        lab = np.ascontiguousarray(lab.T)
+                    dt = str(rng.choice(["int64", "int32", "uint16", "uint8"]))
+                    cases.append({"k": "one", "lab": lab.tolist(), "dt": dt, "strip": 1})
+                    ctx.count("strip_%s_%s" % (orient, kind)); ctx.count("strip_len_%d" % L)
+    return cases
+
+
 def generate(ctx):
     rng = ctx.rng
     cases = []
@@ -197,6 +252,19 @@ def generate(ctx):
         if u > 0.33:
             c["size"] = [int(rng.choice([0, 1, 2, 4, 8, 1000])), int(rng.choice([0, 1, 2, 3, 6, 1000]))]; ctx.count("size_fn")
         cases.append(c)
+    # thin and long images with a decisive single-pixel-pair contact on every row / column (chunk seams)
+    if ctx.quick():
+        cases += _strip_cases(ctx, [530, 1040, 2049], [3, 4, 5, 7, 12], [0, 1], ["top"], ["tall", "wide"])
+        cases += _strip_cases(ctx, [4100], [3, 5], [0, 1], ["bottom"], ["tall", "wide"])
+    else:
+        cases += _strip_cases(ctx, STRIP_LENGTHS, list(range(3, 13)), [0, 1], ["top", "bottom"], ["tall", "wide"])
+        for band in (3, 5, 7):
+            for phase in range(band):
+                L = int(rng.choice(STRIP_LENGTHS)); w = int(rng.randint(3, 13))
+                lab = _strip_image(L, w, phase, str(rng.choice(["top", "bottom"])), int(rng.randint(1, w - 1)), band)
+                if rng.rand() < 0.5:
+                    lab = np.ascontiguousarray(lab.T)
+                cases.append({"k": "one", "lab": lab.tolist(), "dt": "int64", "strip": 1}); ctx.count("strip_band_%d" % band)
     for n in ctx.n([120], [120, 200, 380]):
         cb = (np.indices((n, n)).sum(0) % 2)
         c = {"k": "one", "lab": cb.tolist(), "dt": "int32"}
@@ -458,7 +526,7 @@ def check(ctx, cases, outs):
                 res[k] = res[k] or "image %s: %s" % (json.dumps(lab)[:300], msg)
             if not _plain(c):
                 ctx.count("checker_not_applicable_mask_or_size_fn")
-            elif len(lab) * len(lab[0]) <= CHECK_MAX_PIX:
+            elif len(lab) * len(lab[0]) <= CHECK_MAX_PIX or c.get("strip"):
                 args.append([lab, r[0]]); where.append((k, n, lab))
             else:
                 ctx.count("checker_skipped_large")
@@ -512,7 +580,7 @@ def shrink_candidates(case):
 
     def mk(newlab, newmask=mask, **over):
         c = {"k": "one", "lab": newlab, "dt": case["dt"]}
-        for f in ("layout", "size"):
+        for f in ("layout", "size", "strip"):
             if case.get(f) is not None:
                 c[f] = case[f]
         if newmask is not None:
@@ -523,6 +591,14 @@ def shrink_candidates(case):
             else:
                 c[f] = v
         return c
+    if H > 40:      # long strips: cut the tail, keep the rows before the decisive one in place
+        for keep in (H // 2, (3 * H) // 4, H - 64, H - 8, H - 1):
+            if 0 < keep < H:
+                yield mk(lab[:keep], None if mask is None else mask[:keep])
+    if W > 40:
+        for keep in (W // 2, (3 * W) // 4, W - 64, W - 8, W - 1):
+            if 0 < keep < W:
+                yield mk([row[:keep] for row in lab], None if mask is None else [row[:keep] for row in mask])
     if case.get("layout", "C") != "C":
         yield mk(lab, layout=None)
     if mask is not None:
